@@ -41,6 +41,7 @@ def state_of(p, cp=None, stdout=None):
         "is_valid": p.is_valid,
         "errors": errors_of(p),
         "printouts": list(cp.lines) if cp is not None else None,
+        "printouts_named": {k: list(v) for k, v in cp.named.items()} if cp is not None else None,
         "stopped": p.stopped,
         "unmatched": core.jsonable(p.unmatched) if p.unmatched is not None else None,
     }
@@ -127,6 +128,7 @@ def member_state(result):
         "lines": got,
         "variables": core.jsonable(p.variables),
         "printouts": list(result.printouts),
+        "printouts_named": {str(k): list(v) for k, v in (result.get_printouts() or {}).items()},
         "is_valid": p.is_valid,
         "scan_count": p.scan_count,
         "match_count": p.match_count,
